@@ -45,15 +45,12 @@ def gen_joint(rng, length, name):
         closed = c.state.name == "CLOSED" or s.state.name == "CLOSED"
         if r < 0.25 and c.state.name != "CLOSED":
             call = PS.g_client_call(rng)
-            # only calls the session accepts
-            if call["k"] == "bind" and (c._outstanding_requests or False):
-                continue
-            if c.state.name == "BINDING" and call["k"] not in ("bind", "unbind"):
-                continue
+            # the application tries the call; admissible = the session accepts it (a refusal has no effect, C10)
             if call["k"] == "unbind" and rng.random() < 0.7:
                 continue
             rep = do({"op": "call", "name": cn, "call": call})
-            assert rep["outcome"]["k"] in ("sent", "unit"), rep
+            if rep["outcome"]["k"] not in ("sent", "unit"):
+                continue
             sent[cn].append(C.msg_to_json(PS.call_message(call, rep["outcome"].get("id"))))
         elif r < 0.5 and s.state.name != "CLOSED" and kinds:
             i = rng.choice(sorted(kinds))
@@ -78,10 +75,9 @@ def gen_joint(rng, length, name):
                 call = {"k": "extendedResponse", "name": rng.choice([None, C.tx("1.2.3")]), "value": rng.choice([None, "01"]), "code": code,
                         "mdn": C.tx(""), "diag": C.tx(""), **base}
                 final = True
-            if s.state.name == "BINDING" and call["k"] != "bindResponse":
-                continue
             rep = do({"op": "call", "name": sn, "call": call})
-            assert rep["outcome"]["k"] == "sent", (rep, call)
+            if rep["outcome"]["k"] != "sent":
+                continue
             sent[sn].append(C.msg_to_json(PS.call_message(call, i)))
             if final:
                 kinds.pop(i)
